@@ -132,8 +132,19 @@ func (gph *pkgGraph) buildFS(r *rng, decoys bool) fstest.MapFS {
 		}
 		if decoys {
 			// files that must be ignored
-			if r.chance(40) {
-				fs[gph.dir[p]+"/x_test.go"] = &fstest.MapFile{Data: []byte(fmt.Sprintf("package %s\nvar bad = badf()\nfunc badf() int { println(\"BAD test file %s\"); return 0 }\n", name, p))}
+			if r.chance(55) {
+				// 1..4 test files, at every position of the directory's sorted file list (before, between and
+				// after the ordinary files, adjacent to each other), internal and external (package x_test)
+				names := []string{"x_test.go", "a_test.go", "aa_test.go", "f0_test.go", "f1_a_test.go", "m_test.go", "zz_test.go", "zzz_test.go"}
+				nt := 1 + r.intn(4)
+				for k := 0; k < nt; k++ {
+					fn := names[r.intn(len(names))]
+					pk := name
+					if r.chance(30) {
+						pk = name + "_test"
+					}
+					fs[gph.dir[p]+"/"+fn] = &fstest.MapFile{Data: []byte(fmt.Sprintf("package %s\nvar bad%d = badf%d()\nfunc badf%d() int { println(\"BAD test file %s %s\"); return 0 }\nfunc init() { println(\"BAD init of test file %s\") }\n", pk, k, k, k, p, fn, p))}
+				}
 			}
 			if r.chance(40) {
 				c := pick(r, []string{"//go:build ignore", "//go:build !goat", "//go:build linux && !goat", "\n\n//go:build never"})
@@ -406,8 +417,30 @@ func cmdC16Perm(seed uint64, n int, dir string) {
 		nt := 1 + r.intn(3)
 		nf := 2 + r.intn(4)
 		var hoist []string
+		var tfields [][]string
 		for i := 0; i < nt; i++ {
-			hoist = append(hoist, fmt.Sprintf("type T%d struct {\n\tv int\n}\n", i))
+			// further fields with names SHARED between the types, in different orders: the rendering of a struct
+			// value (field order) must not depend on which type is declared, or compiled, first
+			extra := []string{"x", "y", "w"}
+			for a := len(extra) - 1; a > 0; a-- {
+				b := r.intn(a + 1)
+				extra[a], extra[b] = extra[b], extra[a]
+			}
+			extra = extra[:1+r.intn(3)]
+			decl := fmt.Sprintf("type T%d struct {\n", i)
+			if r.chance(50) {
+				decl += "\tv int\n"
+				for _, f := range extra {
+					decl += "\t" + f + " int\n"
+				}
+			} else {
+				for _, f := range extra {
+					decl += "\t" + f + " int\n"
+				}
+				decl += "\tv int\n"
+			}
+			hoist = append(hoist, decl+"}\n")
+			tfields = append(tfields, extra)
 			for m := 0; m < 1+r.intn(2); m++ {
 				hoist = append(hoist, fmt.Sprintf("func (t *T%d) m%d(a int) int {\n\treturn t.v + helper(a) + %d\n}\n", i, m, m))
 			}
@@ -435,7 +468,12 @@ func cmdC16Perm(seed uint64, n int, dir string) {
 			mainFn += fmt.Sprintf("\tfmt.Println(f%d(%d))\n", i, i+3)
 		}
 		for i := 0; i < nt; i++ {
-			mainFn += fmt.Sprintf("\tx%d := &T%d{v: %d}\n\tfmt.Println(x%d.m0(2))\n", i, i, i+5, i)
+			init := fmt.Sprintf("v: %d", i+5)
+			for k, f := range tfields[i] {
+				init += fmt.Sprintf(", %s: %d", f, 10*(i+1)+k)
+			}
+			// "S" lines: goatlang renders a struct reference with field names, Go without: compared between layouts only
+			mainFn += fmt.Sprintf("\tx%d := &T%d{%s}\n\tfmt.Println(x%d.m0(2))\n\tfmt.Println(\"S\", x%d)\n", i, i, init, i, i)
 		}
 		mainFn += "\tfmt.Println(g0, g1, k1)\n}\n"
 		hoist = append(hoist, mainFn)
@@ -498,7 +536,16 @@ func cmdC16Perm(seed uint64, n int, dir string) {
 		// the Go toolchain on the canonical layout
 		canonical := string(base["main/f00.go"].Data)
 		if exp, panicked, err := goRefRun(asInt32(strings.Replace(canonical, "var _ = fmt.Sprint\n", "", 1))); err == nil && !panicked {
-			if exp != ref {
+			noS := func(t string) string {
+				var keep []string
+				for _, l := range strings.Split(t, "\n") {
+					if !strings.HasPrefix(l, "S ") {
+						keep = append(keep, l)
+					}
+				}
+				return strings.Join(keep, "\n")
+			}
+			if noS(exp) != noS(ref) {
 				st.mismatchG("c16|go-vs-goat", progMismatch{Kind: "c16 canonical layout vs Go toolchain", Src: canonical, Expected: exp, Got: ref})
 			}
 		} else if err != nil {
